@@ -41,6 +41,7 @@ class Check:
         self.exhaustive = False
         self.extra = {}
         self.floor_failures = []
+        self.scope = ""        # "[CONFIG=..] " while the rules are re-run under an alternative build configuration
         self._index = {}
         self.known = [k for k in load_known().get("known", []) if k.get("property") == pid]
 
@@ -52,6 +53,9 @@ class Check:
         """record one obligation.  key: line-number-free identity used to match known findings"""
         if rule not in self.rules:
             raise AnalysisBroken("internal: obligation for unregistered rule %s" % rule)
+        if self.scope:
+            key = self.scope + (key or instance)
+            instance = self.scope + instance
         k = (rule, key or instance)
         prev = self._index.get(k)
         if prev is not None:
@@ -67,6 +71,11 @@ class Check:
 
     def floor(self, rule, what, count, minimum):
         """instance floor: a rule that matches fewer sites than confirmed by hand is broken, not passed"""
+        if self.scope and minimum > 1:
+            # an alternative configuration compiles fewer functions (no pretty printer): floors are hand-confirmed for the
+            # default configuration and relaxed by a quarter elsewhere
+            minimum = max(1, minimum * 3 // 4)
+        what = self.scope + what
         self.analysed["%s:%s" % (rule, what)] = count
         if count < minimum:
             # a violation found elsewhere takes precedence; otherwise the check is broken, not passed
@@ -74,7 +83,7 @@ class Check:
                                        % (self.pid, rule, count, what, minimum))
 
     def count(self, what, n):
-        self.analysed[what] = n
+        self.analysed[self.scope + what] = n
 
     def finish(self):
         selftest = bool(os.environ.get("VERIF_SELFTEST"))
